@@ -302,4 +302,60 @@ def prodI (l : List Int) : Int := l.foldl (· * ·) 1
 /-- `a[i, j, k]` on a 3-D array -/
 def get3 [Inhabited β] (a : List (List (List β))) (i j k : Int) : β := get1 (get1 (get1 a i) j) k
 
+/-! ### vocabulary of the translated outer Monte-Carlo loop (`GenM.mc_outer`) -/
+
+/-- a 2-D array kept column-wise: `r` rows, `c` columns, `cols[j]` = column `j` -/
+structure M (α : Type) where
+  r : Nat
+  c : Nat
+  cols : List (List α)
+
+/-- `np.zeros((r, c))` -/
+def zerosM [NatCast α] (r c : Int) : M α := ⟨r.toNat, c.toNat, List.replicate c.toNat (List.replicate r.toNat ((0 : Nat) : α))⟩
+/-- `a[:, i] = v` -/
+def setColM (a : M α) (i : Int) (v : List α) : M α := ⟨a.r, a.c, set1 a.cols i v⟩
+/-- `a[:, :k]` -/
+def sliceColsM (a : M α) (k : Int) : M α := let cs := slice1 a.cols none (some k); ⟨a.r, cs.length, cs⟩
+/-- `np.average(a, axis=1)`: per row, the sum over the columns (first column first) divided by the number of columns -/
+def averageAxis1M [Add α] [Div α] [NatCast α] [Inhabited α] (a : M α) : List α :=
+  (List.range a.r).map (fun u => sumGen (a.cols.map (fun col => col.getD u default)) / ((a.c : Nat) : α))
+/-- the next reading of `time.time()` / the next result of `randomstate.permutation` (the sequences are parameters) -/
+def headF [NatCast α] (l : List α) : α := l.headD ((0 : Nat) : α)
+def headL {γ : Type} (l : List (List γ)) : List γ := l.headD []
+
+/-! ### vocabulary of the translated container edits (`GenC`) -/
+
+/-- a value's 3-D array `(d, c, 2)` -/
+structure V3 where
+  d : Nat
+  c : Nat
+  v : List (List (List Int))
+
+def shape4 {γ : Type} (a : A4 γ) (k : Nat) : Int := if k = 0 then (a.r : Int) else if k = 1 then (a.d : Int) else (a.c : Int)
+def shapeV3 (x : V3) (k : Nat) : Int := if k = 0 then (x.d : Int) else (x.c : Int)
+
+/-- `np.pad(l, (0, n - len), constant_values=x)` along one axis -/
+def padList {γ : Type} (l : List γ) (n : Nat) (x : γ) : List γ := l ++ List.replicate (n - l.length) x
+/-- a `(·, ·, 2)` block padded with -1 to `d` disjuncts of `c` conjuncts -/
+def padBlock (v : List (List (List Int))) (d c : Nat) : List (List (List Int)) :=
+  padList (v.map (fun cj => padList cj c [-1, -1])) d (List.replicate c [-1, -1])
+/-- `_pad_array(a, (r, d, c, 2))` -/
+def padA4 (a : A4 Int) (r d c : Int) : A4 Int :=
+  ⟨r.toNat, d.toNat, c.toNat, padList (a.v.map (fun row => padBlock row d.toNat c.toNat)) r.toNat (List.replicate d.toNat (List.replicate c.toNat [-1, -1]))⟩
+/-- `_pad_array(x, (d, c, 2))` -/
+def padV3 (x : V3) (d c : Int) : V3 := ⟨d.toNat, c.toNat, padBlock x.v d.toNat c.toNat⟩
+/-- `a[i] = x` (row assignment at a Python index) -/
+def setRow4 (a : A4 Int) (i : Int) (x : V3) : Except String (A4 Int) :=
+  match pyIdx a.r i with
+  | some k => pure ⟨a.r, a.d, a.c, a.v.set k x.v⟩
+  | none => throw "IndexError"
+/-- `np.insert(a, k, fill, axis=0)` for `0 ≤ k ≤ rows` -/
+def insertRow4 (a : A4 Int) (k : Int) (fill : Int) : A4 Int :=
+  ⟨a.r + 1, a.d, a.c, a.v.insertIdx k.toNat (List.replicate a.d (List.replicate a.c [fill, fill]))⟩
+/-- `np.delete(a, i, axis=0)` for an integer index -/
+def deleteRow4 (a : A4 Int) (i : Int) : Except String (A4 Int) :=
+  match pyIdx a.r i with
+  | some k => pure ⟨a.r - 1, a.d, a.c, a.v.eraseIdx k⟩
+  | none => throw "IndexError"
+
 end Np
